@@ -1227,7 +1227,13 @@ fn chaos_of(base: &AppSpec, seed: u64) -> AppSpec {
         }
     }
     // structural oddities (still type-correct Rust)
-    match next() % 12 {
+    let oddity = match next() % 15 {
+        // (the observer-only cycle is drawn more often than the others: it needs three things at once)
+        12 | 13 | 14 => 7,
+        x => x,
+    };
+    let force_observer_cycle = oddity == 7 && next() % 3 != 0;
+    match oddity {
         11 => {
             spec.peel = true;
             notes.push("a generic constructor whose input is a deeper instantiation of its own output (GP<T> needs &GP<GP<T>>)".into());
@@ -1252,7 +1258,7 @@ fn chaos_of(base: &AppSpec, seed: u64) -> AppSpec {
                 notes.push("generic constructors instantiated with arbitrary types".into());
             }
         }
-        7 if next() % 2 == 0 => {
+        7 if force_observer_cycle => {
             // a dependency cycle that only an error observer can reach (two fresh values, at least one of them
             // transient, that need each other), next to an infallible handler that needs a fallible constructor
             let mk = |life: Life, inputs: Vec<(usize, Mode)>, fallible: Option<usize>| TypeSpec {
